@@ -47,7 +47,7 @@ def plan(tier, seed):
 def floors(tier):
     return {"distinct_nontrivial": 300, "op:new": 3000, "op:sym": 1000, "op:rule": 500, "op:clear": 300, "op:query": 3000,
             "cls:undecorated_subclass": 500, "cls:hand_written": 500, "cls:query_after_clear": 200,
-            "cls:inferred_instances_queried": 60, "op:predq": 300, "op:abandon": 300, "op:exc": 200, "cls:live_iterator_started_in": 100, "cls:live_iterator_started_out": 100, "queries_with_subclass_instances": 300}
+            "cls:inferred_instances_queried": 60, "op:predq": 300, "re:cls:no_domain_spelling:.*name.*": 500, "re:cls:no_domain_spelling:T\\(\\)": 500, "op:abandon": 300, "op:exc": 200, "cls:live_iterator_started_in": 100, "cls:live_iterator_started_out": 100, "queries_with_subclass_instances": 300}
 
 
 def gen_case(rng):
@@ -289,10 +289,12 @@ def check_case(case, ctx):
             fam = main if op[1] == "main" else outf
             cls = fam[op[2] % len(fam)]
             want = [o for o in log if isinstance(o, cls)]
+            spelling = ["let(T)", "let(T, name=...)", "T()"][step % 3]
             with symbolic_mode():
-                q = an(entity(let(cls)))
+                q = an(entity(let(cls) if step % 3 == 0 else let(cls, name="v") if step % 3 == 1 else cls()))
+            ctx.cls("cls:no_domain_spelling:" + spelling)
             got = list(q.evaluate())
-            history.append(["query", cls.__name__, len(got), len(want)])
+            history.append(["query", cls.__name__, len(got), len(want), spelling])
             if Counter(map(id, got)) != Counter(map(id, want)):
                 fail = {"what": "QUERY", "class": cls.__name__, "expected": len(want), "observed": len(got),
                         "duplicates": len(got) != len(set(map(id, got))),
